@@ -119,6 +119,93 @@ func main() {
 		ex.writeCas(filepath.Join(*out, "Cas.lean"))
 		ex.writeWriteOrder(filepath.Join(*out, "WriteOrder.lean"))
 		ex.writeSlotCopies(filepath.Join(*out, "SlotCopies.lean"))
+		ex.writeIgnoredErrors(filepath.Join(*out, "IgnoredErrors.lean"))
+	}
+}
+
+// ---------------------------------------------------------------------------------------------
+// ignored errors (C07): every call in the package whose last result is an `error` that is either
+// assigned to the blank identifier or not bound at all (expression statement, go, defer).
+
+func (ex *extractor) callReturnsError(c *ast.CallExpr) bool {
+	tv, ok := ex.info.Types[c]
+	if !ok || tv.Type == nil {
+		return false
+	}
+	isErr := func(t types.Type) bool { return t.String() == "error" }
+	if tup, ok := tv.Type.(*types.Tuple); ok {
+		return tup.Len() > 0 && isErr(tup.At(tup.Len()-1).Type())
+	}
+	return isErr(tv.Type)
+}
+
+func calleeName(c *ast.CallExpr) string {
+	switch f := c.Fun.(type) {
+	case *ast.Ident:
+		return f.Name
+	case *ast.SelectorExpr:
+		return f.Sel.Name
+	}
+	return "?"
+}
+
+func (ex *extractor) writeIgnoredErrors(path string) {
+	var rows []string
+	for q, fd := range ex.funcs {
+		if fd.Body == nil {
+			continue
+		}
+		add := func(c *ast.CallExpr, how string) {
+			// as errcheck does by default: fmt's printers and writes to a bytes.Buffer cannot fail
+			if sel, ok := c.Fun.(*ast.SelectorExpr); ok {
+				if obj := ex.info.Uses[sel.Sel]; obj != nil && obj.Pkg() != nil && obj.Pkg().Path() == "fmt" {
+					return
+				}
+				if tv, ok := ex.info.Types[sel.X]; ok && tv.Type != nil && strings.HasSuffix(tv.Type.String(), "bytes.Buffer") {
+					return
+				}
+			}
+			if ex.callReturnsError(c) {
+				rows = append(rows, fmt.Sprintf("(%q, %q, %q)", q, calleeName(c), how))
+			}
+		}
+		ast.Inspect(fd.Body, func(n ast.Node) bool {
+			switch x := n.(type) {
+			case *ast.ExprStmt:
+				if c, ok := x.X.(*ast.CallExpr); ok {
+					add(c, "dropped")
+				}
+			case *ast.GoStmt:
+				add(x.Call, "dropped")
+			case *ast.DeferStmt:
+				add(x.Call, "dropped")
+			case *ast.AssignStmt:
+				if len(x.Rhs) == 1 {
+					if c, ok := x.Rhs[0].(*ast.CallExpr); ok && len(x.Lhs) > 0 {
+						if id, ok := x.Lhs[len(x.Lhs)-1].(*ast.Ident); ok && id.Name == "_" {
+							add(c, "blank")
+						}
+					}
+				}
+			}
+			return true
+		})
+	}
+	sort.Strings(rows)
+	var b strings.Builder
+	b.WriteString("/- GENERATED by /verif/harness/cmd/extract from /repo — do not edit. -/\nnamespace Gkv.Gen.IgnoredErrors\n\n")
+	b.WriteString("/-- every call whose last result is an `error` that is assigned to `_` (\"blank\") or not bound at all\n    (\"dropped\": expression statement, go, defer): (enclosing function, callee, how) -/\n")
+	b.WriteString("def sites : List (String × String × String) := [\n")
+	for i, r := range rows {
+		sep := ","
+		if i == len(rows)-1 {
+			sep = ""
+		}
+		b.WriteString("  " + r + sep + "\n")
+	}
+	b.WriteString("]\n\nend Gkv.Gen.IgnoredErrors\n")
+	if err := os.WriteFile(path, []byte(b.String()), 0644); err != nil {
+		fail("%v", err)
 	}
 }
 
